@@ -1,6 +1,11 @@
 //! C08 harness: histories over up to three `memory::paged::Memory<il::Constant>` handles.
 //! Every operation runs under catch_unwind; the observable result is recorded after each one.
 //! A history ends at the first panic (the handle may be half-updated afterwards).
+//! Histories run in CHILD processes (`--child 1 --lo a --hi b --cout file`): a stack overflow (unbounded recursion
+//! in `load`), an abort or non-termination kills / stalls the child, not the check.  The parent attributes the death
+//! to the first history the child did not deliver, re-runs that history alone in a tracing child (which records,
+//! before every operation, the history so far with that operation observed as `Panic`), and emits that record as the
+//! case: model /= observed and the oracle fails on a named history and operation.
 use falcon::architecture::Endian;
 use falcon::il::{Constant, Expression};
 use falcon::memory::Value;
@@ -149,10 +154,54 @@ fn flip(e: &Endian) -> Endian {
 }
 fn hex(v: &BigUint) -> String { format!("0x{:x}", v) }
 
+#[derive(Default, Clone)]
+struct Stats {
+    overlap: u32, cross: u32, wrapped: u32, top: u32, loads_none: u32, loads_some: u32, panicked: bool,
+    kinds: std::collections::BTreeSet<&'static str>,
+}
+struct Hdr { expr_mode: bool, endian: Endian, table: String, b0: Option<usize>, has_backing: bool, malformed: bool }
+
+fn finish(h: &Hdr, coq_ops: &[String], descr: &str, st: &Stats, aborted: bool) -> Case {
+    let body = format!("{} {} {} {}", e_coq(&h.endian), h.table, coq_opt(h.b0.map(|i| format!("{}%nat", i))), coq_list(coq_ops.iter().cloned()));
+    let coq = if h.expr_mode { format!("KE {}", body) } else { format!("KC (KHist {})", body) };
+    let mut tags = vec![format!("value:{}", if h.expr_mode { "Expression" } else { "Constant" }), format!("endian:{}", e_coq(&h.endian)), format!("backing:{}", h.has_backing), format!("ops:{}", (coq_ops.len() / 10) * 10)];
+    for k in &st.kinds { tags.push(format!("has:{}", k)); }
+    if st.overlap > 0 { tags.push("has:overlapping-store".into()); }
+    if st.cross > 0 { tags.push("has:page-crossing-store".into()); }
+    if st.wrapped > 0 { tags.push("has:wrapping-store".into()); }
+    if st.top > 0 { tags.push("has:store-ending-at-top".into()); }
+    if st.loads_none > 0 { tags.push("has:load-none".into()); }
+    if st.loads_some > 0 { tags.push("has:load-some".into()); }
+    if st.panicked { tags.push("res:panic".into()); }
+    if aborted { tags.push("res:process-died".into()); }
+    tags.push(if h.malformed { "stream:malformed".into() } else { "stream:valid".into() });
+    let mut hsh: u64 = 0xcbf29ce484222325;
+    for b in coq.as_bytes() { hsh = (hsh ^ *b as u64).wrapping_mul(0x100000001b3); }
+    Case { coq, descr: descr.to_string(), tags, nontrivial: st.overlap > 0 || st.cross > 0, key: format!("{:016x}", hsh) }
+}
+
+/// the operation about to run, rendered with the observation "the process died in it"
+fn abort_text(op: &Op, expr_mode: bool) -> (String, String) {
+    let wrap = |s: String| -> String { if expr_mode { format!("EOther ({})", s) } else { s } };
+    match op {
+        Op::Store(h, a, t, _) => {
+            let lhs = if expr_mode { format!("EStore {} {} {}", h, a, t.coq()) }
+                      else { match t { Tree::Const(v, w) => { let c = Constant::new_big(v.clone(), *w); format!("OStore {} {} {} {}", h, a, c.bits(), z_big(c.value())) } _ => unreachable!() } };
+            (format!("({}, BUnit Panic)", lhs), format!("h{}.store(0x{:x},{})=PROCESS-DIED", h, a, t.show()))
+        }
+        Op::Load(h, a, w) => (format!("({}, BLoad Panic)", wrap(format!("OLoad {} {} {}", h, a, w))), format!("h{}.load(0x{:x},{})=PROCESS-DIED", h, a, w)),
+        Op::Clone(s, d) => (format!("({}, BUnit Panic)", wrap(format!("OClone {} {}", s, d))), format!("h{}=h{}.clone() PROCESS-DIED", d, s)),
+        Op::New(h, e, b) => (format!("({}, BUnit Panic)", wrap(format!("ONew {} {} {}", h, e_coq(e), coq_opt(b.map(|i| format!("{}%nat", i)))))), format!("h{}=new() PROCESS-DIED", h)),
+        Op::SetPerm(h, a, len, p) => (format!("({}, BUnit Panic)", wrap(format!("OSetPerm {} {} {} {}", h, a, len, p))), format!("h{}.set_permissions(0x{:x},{},{})=PROCESS-DIED", h, a, len, p)),
+        Op::Perm(h, a) => (format!("({}, BPerm Panic)", wrap(format!("OPerm {} {}", h, a))), format!("h{}.permissions(0x{:x})=PROCESS-DIED", h, a)),
+        Op::Eq(h1, h2) => (format!("({}, BEq Panic)", wrap(format!("OEq {} {}", h1, h2))), format!("h{}==h{}:PROCESS-DIED", h1, h2)),
+    }
+}
+
 /// one history over three handles of Memory<V>.  `mk` builds the stored value from its tree,
 /// `ev` turns a loaded value into the constant it denotes (identity / executor::eval).
 fn gen_case_v<V: Value>(seed: u64, idx: u64, expr_mode: bool, mk: &dyn Fn(&Tree) -> V,
-                        ev: &dyn Fn(&V) -> Result<Constant, falcon::Error>) -> Case {
+                        ev: &dyn Fn(&V) -> Result<Constant, falcon::Error>, trace: Option<&dyn Fn(&Case)>) -> Case {
     let mut rng = Rng::for_case(seed, idx);
     let r = &mut rng;
     let endian = if r.chance(1, 2) { Endian::Little } else { Endian::Big };
@@ -177,9 +226,9 @@ fn gen_case_v<V: Value>(seed: u64, idx: u64, expr_mode: bool, mk: &dyn Fn(&Tree)
     let mut earlier: Vec<u64> = backs[0].secs.iter().map(|s| s.addr).collect();
     if !has_backing { earlier.clear(); }
     let mut ranges: Vec<Vec<(u128, u128)>> = vec![vec![], vec![], vec![]];
-    let mut top = 0u32;
-    let (mut overlap, mut cross, mut wrapped, mut loads_none, mut loads_some, mut panicked) = (0u32, 0u32, 0u32, 0u32, 0u32, false);
-    let mut kinds = std::collections::BTreeSet::new();
+    let mut st = Stats::default();
+    let table = coq_list(built.iter().zip(backs.iter()).map(|(b, s)| back_coq(b, &s.endian)));
+    let hdr = Hdr { expr_mode, endian: endian.clone(), table, b0, has_backing, malformed: malformed_history };
     let mut coq_ops: Vec<String> = vec![];
     let mut descr = format!("{}{} backing={}", if expr_mode { "V=Expression " } else { "" }, e_coq(&endian), if has_backing { "yes" } else { "no" });
     let wrap_other = |s: String| -> String { if expr_mode { format!("EOther ({})", s) } else { s } };
@@ -210,21 +259,27 @@ fn gen_case_v<V: Value>(seed: u64, idx: u64, expr_mode: bool, mk: &dyn Fn(&Tree)
         } else {
             Op::Eq(h, r.below(3) as usize)
         };
+        if let Some(tr) = trace {
+            let (pc, pd) = abort_text(&op, expr_mode);
+            let mut ops2 = coq_ops.clone();
+            ops2.push(pc);
+            tr(&finish(&hdr, &ops2, &format!("{}; {}", descr, pd), &st, true));
+        }
         let (coq, d, was_panic) = match op {
             Op::Store(h, a, t, w) => {
-                kinds.insert("store");
+                st.kinds.insert("store");
                 let bytes = (w / 8) as u64;
                 let val = mk(&t);
                 let o = observe(|| hs[h].store(a, val.clone()));
                 if w >= 8 && w % 8 == 0 {
                     let end = a as u128 + bytes as u128;
                     if end <= 1u128 << 64 {
-                        if end == 1u128 << 64 { top += 1; }
-                        if ranges[h].iter().any(|(s, e)| (a as u128) < *e && *s < end) { overlap += 1; }
-                        if a as u128 / 1024 != (end - 1) / 1024 { cross += 1; }
+                        if end == 1u128 << 64 { st.top += 1; }
+                        if ranges[h].iter().any(|(s, e)| (a as u128) < *e && *s < end) { st.overlap += 1; }
+                        if a as u128 / 1024 != (end - 1) / 1024 { st.cross += 1; }
                         ranges[h].push((a as u128, end));
                     } else {
-                        wrapped += 1;
+                        st.wrapped += 1;
                     }
                 }
                 earlier.push(a);
@@ -234,15 +289,15 @@ fn gen_case_v<V: Value>(seed: u64, idx: u64, expr_mode: bool, mk: &dyn Fn(&Tree)
                  format!("h{}.store(0x{:x},{})={}", h, a, t.show(), o.kind()), matches!(o, Obs::Panic))
             }
             Op::Load(h, a, w) => {
-                kinds.insert("load");
+                st.kinds.insert("load");
                 let o = observe(|| match hs[h].load(a, w)? { Some(x) => Ok(Some(ev(&x)?)), None => Ok(None) });
-                match &o { Obs::Ok(None) => loads_none += 1, Obs::Ok(Some(_)) => loads_some += 1, _ => {} }
+                match &o { Obs::Ok(None) => st.loads_none += 1, Obs::Ok(Some(_)) => st.loads_some += 1, _ => {} }
                 let show = match &o { Obs::Ok(Some(c)) => format!("{}:{}", hex(c.value()), c.bits()), Obs::Ok(None) => "None".into(), x => x.kind() };
                 (format!("({}, BLoad {})", wrap_other(format!("OLoad {} {} {}", h, a, w)), o.coq(|x| coq_opt(x.as_ref().map(|c| format!("(mkc {} {})", c.bits(), z_big(c.value())))))),
                  format!("h{}.load(0x{:x},{})={}", h, a, w, show), matches!(o, Obs::Panic))
             }
             Op::Clone(s, d) => {
-                kinds.insert("clone");
+                st.kinds.insert("clone");
                 let c = hs[s].clone();
                 hs[d] = c;
                 let rs = ranges[s].clone();
@@ -250,27 +305,27 @@ fn gen_case_v<V: Value>(seed: u64, idx: u64, expr_mode: bool, mk: &dyn Fn(&Tree)
                 (format!("({}, BUnit (Ok tt))", wrap_other(format!("OClone {} {}", s, d))), format!("h{}=h{}.clone()", d, s), false)
             }
             Op::New(h, e, b) => {
-                kinds.insert("new");
+                st.kinds.insert("new");
                 hs[h] = mkmem(&e, b);
                 ranges[h].clear();
                 (format!("({}, BUnit (Ok tt))", wrap_other(format!("ONew {} {} {}", h, e_coq(&e), coq_opt(b.map(|i| format!("{}%nat", i)))))),
                  format!("h{}=new({},{:?})", h, e_coq(&e), b), false)
             }
             Op::SetPerm(h, a, len, p) => {
-                kinds.insert("set_permissions");
+                st.kinds.insert("set_permissions");
                 let o = observe(|| { hs[h].set_permissions(a, len, MemoryPermissions::from_bits_truncate(p)); Ok(()) });
                 (format!("({}, BUnit {})", wrap_other(format!("OSetPerm {} {} {} {}", h, a, len, p)), o.coq(|_| "tt".into())),
                  format!("h{}.set_permissions(0x{:x},{},{})={}", h, a, len, p, o.kind()), matches!(o, Obs::Panic))
             }
             Op::Perm(h, a) => {
-                kinds.insert("permissions");
+                st.kinds.insert("permissions");
                 let o = observe(|| Ok(hs[h].permissions(a).map(|p| p.bits())));
                 let show = match &o { Obs::Ok(x) => format!("{:?}", x), x => x.kind() };
                 (format!("({}, BPerm {})", wrap_other(format!("OPerm {} {}", h, a)), o.coq(|x| coq_opt(x.map(|p| p.to_string())))),
                  format!("h{}.permissions(0x{:x})={}", h, a, show), matches!(o, Obs::Panic))
             }
             Op::Eq(h1, h2) => {
-                kinds.insert("eq");
+                st.kinds.insert("eq");
                 let o = observe(|| Ok(hs[h1] == hs[h2]));
                 let show = match &o { Obs::Ok(x) => format!("{}", x), x => x.kind() };
                 (format!("({}, BEq {})", wrap_other(format!("OEq {} {}", h1, h2)), o.coq(|x| coq_bool(*x).to_string())),
@@ -279,44 +334,144 @@ fn gen_case_v<V: Value>(seed: u64, idx: u64, expr_mode: bool, mk: &dyn Fn(&Tree)
         };
         coq_ops.push(coq);
         write!(descr, "; {}", d).unwrap();
-        if was_panic { panicked = true; break; }
+        if was_panic { st.panicked = true; break; }
     }
-    let table = coq_list(built.iter().zip(backs.iter()).map(|(b, s)| back_coq(b, &s.endian)));
-    let body = format!("{} {} {} {}", e_coq(&endian), table, coq_opt(b0.map(|i| format!("{}%nat", i))), coq_list(coq_ops.iter().cloned()));
-    let coq = if expr_mode { format!("KE {}", body) } else { format!("KC (KHist {})", body) };
-    let mut tags = vec![format!("value:{}", if expr_mode { "Expression" } else { "Constant" }), format!("endian:{}", e_coq(&endian)), format!("backing:{}", has_backing), format!("ops:{}", (coq_ops.len() / 10) * 10)];
-    for k in &kinds { tags.push(format!("has:{}", k)); }
-    if overlap > 0 { tags.push("has:overlapping-store".into()); }
-    if cross > 0 { tags.push("has:page-crossing-store".into()); }
-    if wrapped > 0 { tags.push("has:wrapping-store".into()); }
-    if top > 0 { tags.push("has:store-ending-at-top".into()); }
-    if loads_none > 0 { tags.push("has:load-none".into()); }
-    if loads_some > 0 { tags.push("has:load-some".into()); }
-    if panicked { tags.push("res:panic".into()); }
-    tags.push(if malformed_history { "stream:malformed".into() } else { "stream:valid".into() });
-    let mut hsh: u64 = 0xcbf29ce484222325;
-    for b in coq.as_bytes() { hsh = (hsh ^ *b as u64).wrapping_mul(0x100000001b3); }
-    Case { coq, descr, tags, nontrivial: overlap > 0 || cross > 0, key: format!("{:016x}", hsh) }
+    finish(&hdr, &coq_ops, &descr, &st, false)
 }
 
 /// three histories in four over Memory<il::Constant>, one in four over Memory<il::Expression>
-fn gen_case(seed: u64, idx: u64) -> Case {
+fn gen_case(seed: u64, idx: u64, trace: Option<&dyn Fn(&Case)>) -> Case {
     if idx % 4 == 3 {
-        gen_case_v::<Expression>(seed, idx, true, &|t| t.build(), &|x| falcon::executor::eval(x))
+        gen_case_v::<Expression>(seed, idx, true, &|t| t.build(), &|x| falcon::executor::eval(x), trace)
     } else {
         gen_case_v::<Constant>(seed, idx, false,
             &|t| match t { Tree::Const(v, w) => Constant::new_big(v.clone(), *w), _ => unreachable!() },
-            &|c| Ok(c.clone()))
+            &|c| Ok(c.clone()), trace)
     }
+}
+
+// ---------------------------------------------------------------- child / parent protocol
+fn case_json(c: &Case) -> String {
+    serde_json::json!({"coq": c.coq, "descr": c.descr, "tags": c.tags, "nontrivial": c.nontrivial, "key": c.key}).to_string()
+}
+fn case_of_json(l: &str) -> Option<Case> {
+    let v: serde_json::Value = serde_json::from_str(l).ok()?;
+    Some(Case {
+        coq: v["coq"].as_str()?.to_string(), descr: v["descr"].as_str()?.to_string(),
+        tags: v["tags"].as_array()?.iter().filter_map(|t| t.as_str().map(|x| x.to_string())).collect(),
+        nontrivial: v["nontrivial"].as_bool()?, key: v["key"].as_str()?.to_string(),
+    })
+}
+
+/// `--child 1 --lo a --hi b --cout file [--trace file]`: one serialised case per line, flushed after each history;
+/// with `--trace`, the record "history so far + the operation about to run observed as Panic" is rewritten before
+/// every operation.
+fn child_main(args: &Args) {
+    use std::io::Write as _;
+    let lo: u64 = args.extra["lo"].parse().unwrap();
+    let hi: u64 = args.extra["hi"].parse().unwrap();
+    let mut out = std::fs::File::create(&args.extra["cout"]).unwrap();
+    let tpath = args.extra.get("trace").cloned();
+    for i in lo..hi {
+        let c = match &tpath {
+            Some(tp) => {
+                let f = |c: &Case| { let mut t = std::fs::File::create(tp).unwrap(); t.write_all(case_json(c).as_bytes()).unwrap(); t.sync_data().ok(); };
+                gen_case(args.seed, i, Some(&f))
+            }
+            None => gen_case(args.seed, i, None),
+        };
+        writeln!(out, "{}", case_json(&c)).unwrap();
+        out.flush().unwrap();
+    }
+}
+
+/// run a child to completion or until `limit`; true = exited normally with status 0
+fn run_child(exe: &std::path::Path, a: &[String], limit: std::time::Duration) -> (bool, &'static str) {
+    use std::process::{Command, Stdio};
+    let mut ch = Command::new(exe).args(a).stdin(Stdio::null()).stdout(Stdio::null()).stderr(Stdio::null()).spawn().expect("spawn child");
+    let t0 = std::time::Instant::now();
+    loop {
+        match ch.try_wait() {
+            Ok(Some(st)) => return (st.success(), if st.success() { "ok" } else { "abort" }),
+            Ok(None) => {
+                if t0.elapsed() > limit { let _ = ch.kill(); let _ = ch.wait(); return (false, "timeout"); }
+                std::thread::sleep(std::time::Duration::from_millis(5));
+            }
+            Err(_) => return (false, "abort"),
+        }
+    }
+}
+
+/// histories [lo, hi) through child processes; a dead or stalled child yields, for the first history it did not
+/// deliver, the tracing child's last record (that history, cut at the operation that killed the process)
+fn run_range(args: &Args, exe: &std::path::Path, lo: u64, hi: u64, chunk_limit: std::time::Duration, one_limit: std::time::Duration) -> Vec<Case> {
+    let mut cases = vec![];
+    let mut next = lo;
+    let base = vec!["--child".to_string(), "1".into(), "--seed".into(), args.seed.to_string(), "--n".into(), args.n.to_string(), "--out".into(), args.out.clone()];
+    while next < hi {
+        let f = format!("{}/child_{}.jsonl", args.out, next);
+        let mut a = base.clone();
+        a.extend(["--lo".to_string(), next.to_string(), "--hi".into(), hi.to_string(), "--cout".into(), f.clone()]);
+        let (ok, _) = run_child(exe, &a, chunk_limit);
+        let got: Vec<Case> = std::fs::read_to_string(&f).unwrap_or_default().lines().filter_map(case_of_json).collect();
+        let _ = std::fs::remove_file(&f);
+        let k = got.len() as u64;
+        cases.extend(got);
+        next += k;
+        if ok && next >= hi { break; }
+        if next >= hi { break; }
+        // history `next` killed or stalled the child: run it alone, tracing
+        let (f2, f3) = (format!("{}/child_{}_one.jsonl", args.out, next), format!("{}/child_{}_trace.json", args.out, next));
+        let mut a = base.clone();
+        a.extend(["--lo".to_string(), next.to_string(), "--hi".into(), (next + 1).to_string(), "--cout".into(), f2.clone(), "--trace".into(), f3.clone()]);
+        let (ok1, why) = run_child(exe, &a, one_limit);
+        let done: Vec<Case> = std::fs::read_to_string(&f2).unwrap_or_default().lines().filter_map(case_of_json).collect();
+        let c = if ok1 && done.len() == 1 {
+            done.into_iter().next().unwrap() // did not reproduce alone (e.g. the chunk ran out of time on a loaded machine)
+        } else {
+            match std::fs::read_to_string(&f3).ok().and_then(|t| case_of_json(&t)) {
+                Some(mut c) => { c.tags.push(format!("died:{}", why)); c.descr = format!("{} [{}]", c.descr, if why == "timeout" { "no result within the per-child wall-clock limit" } else { "process aborted (stack overflow / abort signal)" }); c }
+                None => Case { coq: "KC (KHist LE [] (Some 7%nat) [])".into(), descr: format!("history {}: the process died ({}) before its first operation", next, why),
+                               tags: vec!["res:process-died".into(), format!("died:{}", why)], nontrivial: false, key: format!("died{}", next) },
+            }
+        };
+        let _ = std::fs::remove_file(&f2);
+        let _ = std::fs::remove_file(&f3);
+        cases.push(c);
+        next += 1;
+    }
+    cases
 }
 
 fn main() {
     quiet_panics();
     let args = parse_args();
-    let idxs: Vec<u64> = match args.only { Some(i) => vec![i], None => (0..args.n).collect() };
-    let cases: Vec<Case> = idxs.iter().map(|i| gen_case(args.seed, *i)).collect();
+    if args.extra.contains_key("child") { child_main(&args); return; }
+    std::fs::create_dir_all(&args.out).unwrap();
+    let exe = std::env::current_exe().unwrap();
+    let secs = |k: &str, d: u64| std::time::Duration::from_secs(args.extra.get(k).and_then(|v| v.parse().ok()).unwrap_or(d));
+    let (chunk_limit, one_limit) = (secs("chunk-timeout", 120), secs("history-timeout", 20));
+    let (lo, hi) = match args.only { Some(i) => (i, i + 1), None => (0, args.n) };
+    // chunks of <= 125 histories, 16 children at a time
+    let mut chunks: Vec<(u64, u64)> = vec![];
+    let mut x = lo;
+    while x < hi { let y = std::cmp::min(hi, x + 125); chunks.push((x, y)); x = y; }
+    let slots: Vec<Option<Vec<Case>>> = (0..chunks.len()).map(|_| None).collect();
+    let queue = std::sync::Mutex::new((0usize, slots));
+    std::thread::scope(|sc| {
+        for _ in 0..16 {
+            sc.spawn(|| loop {
+                let k = { let mut q = queue.lock().unwrap(); let k = q.0; q.0 += 1; k };
+                if k >= chunks.len() { break; }
+                let r = run_range(&args, &exe, chunks[k].0, chunks[k].1, chunk_limit, one_limit);
+                queue.lock().unwrap().1[k] = Some(r);
+            });
+        }
+    });
+    let cases: Vec<Case> = queue.into_inner().unwrap().1.into_iter().flat_map(|c| c.unwrap()).collect();
     let nt = cases.iter().filter(|c| c.nontrivial).count();
+    let died = cases.iter().filter(|c| c.tags.iter().any(|t| t == "res:process-died")).count();
     write_cases(&args, "C08",
         "From Coq Require Import ZArith List NArith.\nFrom Falcon Require Import Base.Res IL.Const IL.Expr Mem.PagedTypes Mem.Paged Mem.C08Check Mem.C08CheckE.\nImport ListNotations.\nLocal Open Scope Z_scope.",
-        "cke", &cases, std::cmp::max(16, (cases.len() + 249) / 250), serde_json::json!({"nontrivial_histories": nt}));
+        "cke", &cases, std::cmp::max(16, (cases.len() + 249) / 250), serde_json::json!({"nontrivial_histories": nt, "histories_that_killed_the_process": died}));
 }
